@@ -241,6 +241,11 @@ impl Cond {
         *self == Self::default_for(self.gv_weight.len())
     }
     pub fn apply(&self, e: &mut Engine) {
+        self.apply_opts(e, true)
+    }
+
+    /// `with_volume = false` leaves the engine's current volume alone.
+    pub fn apply_opts(&self, e: &mut Engine, with_volume: bool) {
         let c = &mut e.condition;
         if let Some(a) = self.alpha {
             c.set_alpha(a);
@@ -257,7 +262,9 @@ impl Cond {
             }
         }
         c.set_additional_half_tone(self.half_tone);
-        c.set_volume(self.volume_db);
+        if with_volume {
+            c.set_volume(self.volume_db);
+        }
         c.set_speed(self.speed);
         if let Some(r) = self.rate {
             c.set_sampling_frequency(r);
